@@ -10,7 +10,11 @@
 EXTENDS Csc, Json
 
 CONSTANTS TREES_ONLY,     \* TRUE: single cells only
-          EMIT            \* TRUE: print one line per configuration for the evaluator cross-check
+          EMIT,           \* TRUE: print one line per configuration for the evaluator cross-check
+          METAMORPHIC     \* TRUE: after Done, re-run on a derived configuration (C12: Isolate a cell, swap leaf siblings)
+
+VARIABLES phase,          \* "first" | "isolated" | "swapped"
+          prev            \* solution of the first run, keyed by the compartments' parameter keys
 
 ChooseConfig ==
   /\ pc = "Choose"
@@ -19,12 +23,39 @@ ChooseConfig ==
        /\ ncomp' \in [1..n -> 1..NC]
        /\ blab' = [b \in 1..n |-> b]
   /\ pc' = "Config"
-  /\ UNCHANGED <<lvl, st>>
+  /\ UNCHANGED <<lvl, st, phase, prev>>
+
+(* C12: metamorphic re-runs.  Parameters follow the branch labels (blab), so the derived configuration  *)
+(* carries exactly the same physical compartments.                                                      *)
+Keyed == [k \in {Key(c) : c \in Comps} |-> Solution[CHOOSE c \in Comps : Key(c) = k]]
+BranchesOfCell(c) == {b \in Branches : CellOf(b) = c}
+\* simulate cell c of the network on its own
+Isolate(c) ==
+  LET B == BranchesOfCell(c)  lo == Min(B)  n == Cardinality(B) IN
+  /\ METAMORPHIC /\ pc = "Done" /\ phase = "first" /\ NCells > 1 /\ NonDegenerate(st)
+  /\ parents' = [i \in 1..n |-> IF parents[lo + i - 1] = 0 THEN 0 ELSE parents[lo + i - 1] - lo + 1]
+  /\ ncomp' = [i \in 1..n |-> ncomp[lo + i - 1]]
+  /\ blab' = [i \in 1..n |-> blab[lo + i - 1]]
+  /\ prev' = Keyed /\ phase' = "isolated" /\ pc' = "Config" /\ UNCHANGED <<lvl, st>>
+\* list two sibling leaf branches in the other order
+IsLeaf(b) == Children(b) = {}
+SwapLeafSiblings(b1, b2) ==
+  /\ METAMORPHIC /\ pc = "Done" /\ phase = "first" /\ NonDegenerate(st)
+  /\ b1 < b2 /\ parents[b1] = parents[b2] /\ parents[b1] # 0 /\ IsLeaf(b1) /\ IsLeaf(b2)
+  /\ ncomp' = [ncomp EXCEPT ![b1] = ncomp[b2], ![b2] = ncomp[b1]]
+  /\ blab' = [blab EXCEPT ![b1] = blab[b2], ![b2] = blab[b1]]
+  /\ prev' = Keyed /\ phase' = "swapped" /\ pc' = "Config" /\ UNCHANGED <<parents, lvl, st>>
+Meta == (\E c \in 1..NB : c <= NCells /\ Isolate(c)) \/ (\E b1, b2 \in 1..NB : b1 \in Branches /\ b2 \in Branches /\ SwapLeafSiblings(b1, b2))
 
 Init == /\ parents = <<0>> /\ ncomp = <<1>> /\ blab = <<1>>
         /\ pc = "Choose" /\ lvl = 0 /\ st = [deg |-> FALSE]
-Next == ChooseConfig \/ HinesNext
-Spec == Init /\ [][Next]_hvars
+        /\ phase = "first" /\ prev = <<>>
+Next == ChooseConfig \/ (HinesNext /\ UNCHANGED <<phase, prev>>) \/ Meta
+Spec == Init /\ [][Next]_<<hvars, phase, prev>>
+\* C12: a cell inside a network without synapses behaves exactly like the cell alone; listing sibling
+\* branches in a different order permutes the solution and changes nothing else
+MetamorphicAgrees ==
+  (pc = "Done" /\ phase # "first" /\ NonDegenerate(st)) => \A c \in Comps : Solution[c] = prev[Key(c)]
 
 (* ------------------------------ C02 identities -------------------------- *)
 AtDone == pc = "Done" /\ NonDegenerate(st)
@@ -61,5 +92,5 @@ Emit == (EMIT /\ pc \in {"Done", "Refused"}) =>
           PrintT(<<"CFG", ToJson([parents |-> parents, ncomp |-> ncomp, seed |-> SEED, pc |-> pc,
                                   ok |-> IF pc = "Done" THEN NonDegenerate(st) ELSE ParamsOK,
                                   sol |-> IF pc = "Done" THEN Solution ELSE <<>>,
-                                  dt |-> dt, accepts |-> Accepts])>>)
+                                  dt |-> dt, accepts |-> Accepts, phase |-> phase, blab |-> blab])>>)
 =============================================================================
